@@ -118,3 +118,42 @@ def descending_for(fn, fid):
     if loop_var_modified_in(fn, d['id'], fn.descendants(n['body'])):
         return None
     return {'var': d['id'], 'name': d['name'], 'start': d['init'], 'body': n['body'], 'for': fid}
+
+
+def iterator_for(fn, fid, R):
+    """for (auto it = X.begin(); it != X.end(); ++it) with `it` not otherwise modified
+    -> dict(name, range rendering X, node) or None"""
+    n = fn.nodes[fid]
+    if n['k'] != 'ForStmt' or 'init' not in n or 'cond' not in n or 'inc' not in n:
+        return None
+    init = fn.nodes[n['init']]
+    if init['k'] != 'DeclStmt' or len(init['decls']) != 1 or 'init' not in init['decls'][0]:
+        return None
+    d = init['decls'][0]
+    if '_iterator' not in d.get('type', ''):
+        return None
+    b = fn.nodes[fn.strip(d['init'], 'all')]
+    if not (b['k'] == 'CXXMemberCallExpr' and b['callee']['name'] in ('begin', 'cbegin') and b.get('obj') is not None):
+        return None
+    cond = fn.nodes[fn.strip(n['cond'], 'all')]
+    if not (cond['k'] == 'CXXOperatorCallExpr' and cond.get('op') in ('!=', '<') and len(cond.get('args', [])) == 2):
+        return None
+    l = fn.nodes[fn.strip(cond['args'][0], 'all')]
+    r = fn.nodes[fn.strip(cond['args'][1], 'all')]
+    if l['k'] != 'DeclRefExpr' or l['decl'].get('id') != d['id']:
+        return None
+    if not (r['k'] == 'CXXMemberCallExpr' and r['callee']['name'] in ('end', 'cend') and r.get('obj') is not None and R.render(r['obj']) == R.render(b['obj'])):
+        return None
+    inc = fn.nodes[fn.strip(n['inc'], 'all')]
+    if not (inc['k'] == 'CXXOperatorCallExpr' and inc.get('op') == '++'):
+        return None
+    iv = fn.nodes[fn.strip(inc['args'][0], 'all')]
+    if not (iv['k'] == 'DeclRefExpr' and iv['decl'].get('id') == d['id']):
+        return None
+    for x in fn.descendants(n['body']):
+        m = fn.nodes[x]
+        if m['k'] == 'CXXOperatorCallExpr' and m.get('op') in ('++', '--', '+=', '-=', '=') and m.get('args'):
+            t = fn.nodes[fn.strip(m['args'][0], 'all')]
+            if t['k'] == 'DeclRefExpr' and t['decl'].get('id') == d['id']:
+                return None
+    return {'name': d['name'], 'range': R.render(b['obj']), 'range_node': b['obj'], 'var': d['id'], 'body': n['body'], 'for': fid}
